@@ -26,7 +26,7 @@ from collections import deque
 from contextlib import contextmanager
 import modelx   # https://bugs.python.org/issue18145
 from modelx.core.node import get_node_repr
-from modelx.core.base import NullImpl, null_impl
+from modelx.core.base import Impl, NullImpl, null_impl
 from modelx.core.model import ModelImpl
 from modelx.core.util import AutoNamer, is_valid_name
 from modelx.core.errors import DeepReferenceError, FormulaError
@@ -696,7 +696,13 @@ class System:
                     if (not ids) and as_proxy and (key in obj.refs):
                         obj = obj._get_object(key, as_proxy=as_proxy)
                     else:
-                        obj = getattr(obj, key)
+                        # Members first: a cells or space may be named like
+                        # an attribute of the interface (doc, name, model...)
+                        impl = obj._impl.namespace.get(key, None)
+                        if isinstance(impl, Impl):
+                            obj = impl.interface
+                        else:
+                            obj = getattr(obj, key)
                 else:
                     obj = self.models[key].interface
 
